@@ -221,6 +221,35 @@ def budgets(chk, crate):
                 ok, why = duration_positive(crate, ex.operand(t["args"][0]))
                 chk.require(ok, "C10-b/timeout-positive", where + " timeout()", "timeout duration: " + why, why, t.get("sp"))
     chk.floor("retry budgets checked", n, 2)
+    loop_budget(chk, crate)
+
+
+def loop_budget(chk, crate):
+    """C10-b/every-cycle-consumes-budget: the caller's finite retry stream bounds a call only if the wrapper
+    cannot go round without asking it.  In ResetSequence::into_stream_with_retry every real loop (await poll
+    loops excluded) must poll a stream on every cycle - the retry stream, or the command's reply stream
+    (finite by the protocol rules of C05 and polled under the per-packet timeout)."""
+    import contracts
+    bid = STREAM + "into_stream_with_retry::{closure#0}"
+    b = crate.bodies.get(bid)
+    if not chk.require(b is not None, "C10-b/every-cycle-consumes-budget", "into_stream_with_retry", "wrapper coroutine not found", "",
+                       nontrivial=False):
+        return
+    polls = {bb for bb, t in b.calls() if callee(t) == "tokio_stream::stream_ext::StreamExt::next"}
+    yields = {i for i in range(b.n) if b.blocks[i]["term"]["t"] == "yield"}
+    n = 0
+    for hdr, blocks in sorted(b.natural_loops().items()):
+        if hdr not in b.reachable(0):
+            continue
+        if contracts.cycles_broken_by(b, hdr, blocks, yields):
+            continue                    # an await poll loop: every cycle suspends (bounded by rule a)
+        n += 1
+        ok = contracts.cycles_broken_by(b, hdr, blocks, polls)
+        chk.require(ok, "C10-b/every-cycle-consumes-budget", "into_stream_with_retry loop@bb%d" % hdr,
+                    "the wrapper can go round this loop without polling the retry stream (or the reply stream): the caller's "
+                    "finite retry budget does not bound the call - e.g. a reconnect that times out is repeated for ever",
+                    "every cycle polls a stream", b.blocks[hdr]["term"].get("sp"))
+    chk.floor("wrapper loops checked against the retry budget", n, 2)
 
 
 def arith_mentions_config(e, depth=0):
